@@ -90,8 +90,8 @@ Section Window.
     rewrite last_cons_default in Hlast. rewrite Hlast. exact Hzy.
   Qed.
 
-  Lemma sort_blocks_adj (l : list blk) : Forall bwf l -> adj (sort_blocks l).
-  Proof. intro W. unfold sort_blocks. apply adj_rev, sort_fold_radj; auto; cbn; auto. Qed.
+  Lemma isort_adj (l : list blk) : Forall bwf l -> adj (isort l).
+  Proof. intro W. unfold isort. apply adj_rev, sort_fold_radj; auto; cbn; auto. Qed.
 
   Lemma adjP_suffix : forall l x, adjP x l -> adj l.
   Proof. intros [|y r] x; cbn; tauto. Qed.
@@ -142,9 +142,9 @@ Section Window.
     cbn [rev]. rewrite <- app_assoc. cbn [app]. rewrite !pfirst_app, pfirst_ins_rev by auto. reflexivity.
   Qed.
 
-  Lemma plast_sort t (l : list blk) : Forall bwf l -> plast t (sort_blocks l) = plast t l.
+  Lemma plast_isort t (l : list blk) : Forall bwf l -> plast t (isort l) = plast t l.
   Proof.
-    intro W. unfold sort_blocks. rewrite plast_rev, sort_fold_pfirst by (auto; constructor).
+    intro W. unfold isort. rewrite plast_rev, sort_fold_pfirst by (auto; constructor).
     rewrite app_nil_r, <- plast_rev, rev_involutive. reflexivity.
   Qed.
 
